@@ -113,6 +113,9 @@ def merge_reports(files):
     return merged
 
 
+HARD_BOUND_KINDS = {"limit-exceeded", "memory-exceeded", "oversized-cached"}
+
+
 def reattribute(viols):
     """Capacity-bookkeeping violations (C04/C05/C07/C08 kinds) that were only ever observed while the
     cache carried traces of an expiry purge / an invalidation belong to C06 ("the expired entry no
@@ -123,6 +126,8 @@ def reattribute(viols):
         return tuple(p[:5])
     untainted = {base_key(v) for v in viols if not v.get("taint")}
     for v in viols:
+        if v["sig"].split("|")[4] in HARD_BOUND_KINDS:
+            continue  # "never more than limit / max_memory" is C04's / C05's own invariant whatever led to it
         if v.get("taint") and base_key(v) not in untainted and v.get("alt_property"):
             parts = v["sig"].split("|")
             parts[0] = v["alt_property"]
@@ -233,17 +238,17 @@ L2_RULE = ("MACRO LEVEL: generated multi-cache histories (30-120 operations + cl
 prop("C01", ["l1", "l2", "key"], "exploration",
      L1_RULE + L2_RULE + "KEY LEVEL (shared with C02): adversarial argument pairs on 29 signature shapes; a call served from another tuple's entry is reported here as 'a value stored for other arguments'. Non-trivial = a lookup of a stored key (value must be the last one stored for that key); distinct = distinct (configuration, key, hit-count class, store size).",
      COMMON_ASSUME, ("C01", "lookups_of_stored_key"))
-prop("C05", ["l1"], "exploration",
-     L1_RULE + "Values: String, Vec<u8>, Vec<String>, Option<String>, Result<String,String>, (String,Vec<u32>), Box<String>, a user type with its own estimator; sizes around M/3, M/2, M-1, M, M+1, >M, with slack capacity. Sizes are measured by an independent footprint oracle. Non-trivial = a store under memory pressure; distinct = distinct (configuration, residents, order shape, size class).",
+prop("C05", ["l1", "l2"], "exploration",
+     L1_RULE + L2_RULE + "Values: String, Vec<u8>, Vec<String>, Option<String>, Result<String,String>, (String,Vec<u32>), Box<String>, a user type with its own estimator; sizes around M/3, M/2, M-1, M, M+1, >M, with slack capacity. Sizes are measured by an independent footprint oracle. Non-trivial = a store under memory pressure; distinct = distinct (configuration, residents, order shape, size class).",
      COMMON_ASSUME + ["the footprint oracle (vhooks::Footprint) is the intended meaning of 'inline size plus owned heap capacity'"], ("C05", "stores_under_memory_pressure"))
-prop("C06", ["l1"], "exploration",
-     L1_RULE + "Non-trivial = a lookup of an entry while a ttl is configured; distinct = distinct (configuration, quarter-second age bucket, store size, exactly-on-a-second?).",
+prop("C06", ["l1", "l2"], "exploration",
+     L1_RULE + L2_RULE + "Non-trivial = a lookup of an entry while a ttl is configured; distinct = distinct (configuration, quarter-second age bucket, store size, exactly-on-a-second?).",
      COMMON_ASSUME, ("C06", "expired_lookups"))
-prop("C07", ["l1"], "exploration",
-     L1_RULE + "Non-trivial = an overflowing store under FIFO/LRU whose victim set is compared with 'oldest stored' / 'least recently used'; distinct = distinct (configuration, residents, recency/insertion order shape, size class).",
+prop("C07", ["l1", "l2"], "exploration",
+     L1_RULE + L2_RULE + "Non-trivial = an overflowing store under FIFO/LRU whose victim set is compared with 'oldest stored' / 'least recently used'; distinct = distinct (configuration, residents, recency/insertion order shape, size class).",
      COMMON_ASSUME, ("C07", "victims_checked_limit_pressure"))
-prop("C08", ["l1"], "exploration",
-     L1_RULE + "Non-trivial = an overflowing store under LFU/ARC/TLRU whose victim must be a score minimiser over the residents or over residents+newcomer; distinct = distinct (configuration, order shape, hit-count vector).",
+prop("C08", ["l1", "l2"], "exploration",
+     L1_RULE + L2_RULE + "Non-trivial = an overflowing store under LFU/ARC/TLRU whose victim must be a score minimiser over the residents or over residents+newcomer; distinct = distinct (configuration, order shape, hit-count vector).",
      COMMON_ASSUME + ["sync engines always hold a zero-score newcomer, so for them the check only establishes that a zero-score entry was evicted (stated in DESIGN.md C08)"], ("C08", "victims_checked_with_unique_resident_minimiser"))
 prop("C16", ["l1", "l2"], "exploration",
      L1_RULE + "Every operation runs under catch_unwind in a build with overflow checks and debug assertions. Non-trivial/distinct = configurations of the full product visited (each with overflow-heavy histories).",
@@ -291,8 +296,8 @@ prop("C14", ["l2", "conc"], "exploration",
 prop("C15", ["l2", "conc"], "exploration",
      CONC_RULE + L2_RULE + "Focus: global and async functions (custom names included): stats_registry::get(name) must equal the model's hit/miss counters after every call, invalidation and reset; a reset of one name must leave the others unchanged. Non-trivial = a comparison; distinct = distinct (function, hits, misses) triples.",
      COMMON_ASSUME, ("C15", "stats_comparisons"))
-prop("C04", ["l1"], "exploration",
-     "generated lookup/store/advance histories (40-200 ops + fill probe) for every configuration of the product flavour x policy x limit x ttl x max_memory x frequency_weight, on the real engines with harness-owned storage; after every operation the whole store is compared with the specification model. Non-trivial = a store that overflows the entry limit; distinct = distinct (configuration, number of residents, replacing?, recency/insertion order shape, size class) tuples among those.",
+prop("C04", ["l1", "l2"], "exploration",
+     L1_RULE + L2_RULE + "Non-trivial = a store that overflows the entry limit; distinct = distinct (configuration, number of residents, replacing?, recency/insertion order shape, size class) tuples among those. At macro level the histories include conditional and group invalidations and expiry before the overflows.",
      COMMON_ASSUME, ("C04", "overflowing_stores"))
 
 
@@ -417,6 +422,16 @@ def main():
     # one observation can refute two statements: a call served from another argument tuple's
     # entry (C02) also "yields a value that was stored for other arguments" (C01)
     for v in merged["violations"]:
+        parts = v["sig"].split("|")
+        # a bound exceeded after an expiry purge / an invalidation also refutes "an expired entry no
+        # longer occupies capacity" (C06) / "limits behave as if the removed entries had never been stored" (C13)
+        if v.get("taint") and v.get("alt_property") == pid and parts[4] in HARD_BOUND_KINDS and v.get("property") != pid:
+            parts[0] = pid
+            parts[4] = parts[4] + "-after-" + v["taint"]
+            v["also_refutes"] = v["property"]
+            v["property"] = pid
+            v["sig"] = "|".join(parts)
+            continue
         for (src, kinds) in ALSO_REFUTES.get(pid, []):
             parts = v["sig"].split("|")
             if v.get("property") == src and parts[4] in kinds:
